@@ -43,6 +43,11 @@ func c01Check(d string) (accepted bool, msg string, m1 *openfgav1.AuthorizationM
 	if err != nil || m1 == nil {
 		return false, "", nil
 	}
+	if m1.GetSchemaVersion() == "" {
+		// TransformDSLToProto also accepts module files ("module m ..."); the property is about documents accepted
+		// as a full model, i.e. with a model/schema header, which always yields a schema version
+		return false, "", nil
+	}
 	snapshot := proto.Clone(m1)
 	// path A: the in-memory model straight into the printer
 	t1, err := transformer.TransformJSONProtoToDSL(m1)
